@@ -72,7 +72,7 @@ def run_tlc(module, cfg_text, *, workers=None, simulate=None, depth=None, seed=N
                 fh.write(text)
         with open(os.path.join(tmp, module + ".cfg"), "w") as fh:
             fh.write(cfg_text)
-        cmd = ["java", "-XX:+UseParallelGC", "-Xss64m"] + (java_opts or []) + [
+        cmd = ["java", "-XX:+UseParallelGC", "-Xss64m", "-Xmx6g"] + (java_opts or []) + [
             "-cp", TLC_JAR, "tlc2.TLC", "-workers", str(workers), "-metadir",
             os.path.join(tmp, "meta"), "-noGenerateSpecTE"]
         if coverage:
